@@ -216,7 +216,13 @@ class BoolExpr:
             pa = pa + R.polys_of(regs["C"])
         d2 = near_contact_d2(pa, pb)
         sig["near_contact_1e-5"] = bool(d2 is not None and d2 < F(1, 10**10))
-        sig["boundaries_transversal"] = bool(R.x_transversal(pa, pb))
+        tv = R.x_transversal(pa, pb)
+        if self.C:  # three operands: every pair of operand boundaries
+            tv = tv and R.x_transversal(R.polys_of(regs["A"]), R.polys_of(regs["C"])) and R.x_transversal(pb, R.polys_of(regs["C"]))
+            d3 = near_contact_d2(R.polys_of(regs["A"]), R.polys_of(regs["C"]))
+            if d3 is not None and d3 < F(1, 10**10):
+                sig["near_contact_1e-5"] = True
+        sig["boundaries_transversal"] = bool(tv)
         sig["_min_nonzero_vertex_to_other_boundary_dist2"] = str(d2)
         if self.expr[0] == "^" and exc is None:
             # A ^ B is computed as (A - B) | (B - A); the two differences always touch at the crossing points. Does the
